@@ -103,6 +103,10 @@ def body_bytes(rng, big=False):
     return b"\x00\r\n\r\n\x00" + tok(rng, 0, 50)
 
 
+# Expires values: canonical, and legal-but-not-canonical spellings (leading zeros, sign) that a relay must not rewrite
+EXPIRES = [b"3600", b"60", b"abc", b"0", b"0600", b"007", b"+60", b"-5", b"00", b"1800"]
+
+
 class Flows:
     """one scenario under construction"""
 
@@ -127,7 +131,7 @@ class Flows:
                            no_received=o.get("no_received", r.choice([None, None, True, False])),
                            must_rr=o.get("must_rr", r.random() < 0.3))
         self.l2 = None
-        if o.get("two_listeners", r.random() < 0.2):
+        if o.get("two_listeners", r.random() < 0.3):
             self.l2 = s.listen(2, udp=5060, tcp=0, backends=[], no_received=r.choice([None, True, False]),
                                must_rr=r.random() < 0.3)
         # host table: names for the listener, next hops, a UA
@@ -142,9 +146,11 @@ class Flows:
         s.udp_ep(s.ip(3), 5060)
         self.tcphops = [s.tcp_ln(s.ip(35), 5090)] if o.get("tcphops", r.random() < 0.3) else []
         # static routes
-        nr = o.get("routes", r.choice([0, 1, 2, 3]))
+        nr = o.get("routes", r.choice([0, 1, 2, 3, 4, 5]))
+        # overlapping entries on purpose: a literal that a wildcard listed BEFORE or AFTER it also covers (the literal wins),
+        # two wildcards covering the same hosts, a default
         pool = [(b"static.example.org", 0), (b"*.wild.example.org", 1), (b"default", 2), (b"other.example.org", 0),
-                (b"tcp.example.org", 3)]
+                (b"tcp.example.org", 3), (b"a.wild.example.org", 2), (b"*.example.org", 2)]
         for dest, hopi in r.sample(pool, min(nr, len(pool))):
             if hopi == 3:
                 if self.tcphops:
@@ -158,6 +164,7 @@ class Flows:
         self.dialogs = []          # (callid, (ftag, furi), (ttag, turi), backend or None)
         self.pending = []          # requests sent to a backend: (event, request headers..., ua)
         self.foreign = []          # dialogs seen only in responses of non-backend peers (raw_response)
+        self.learned2 = []         # next hops that sent a request to listener 2
         self.seq = 0
         self.conns = []            # client connections opened to the proxy: (cid, ip, port)
         self.next_conn = 0         # connection ids are handed out in order: accepts and the proxy's own dials
@@ -223,7 +230,7 @@ class Flows:
                              b"Supported", b"k", b"Accept", b"Max-Forwards", b"Expires", b"Content-Type", b"c"])
             v = ext_value(r, o.get("big", False) and sum(len(x[1]) for x in hs) < 30000)
             if name == b"Expires":
-                v = r.choice([b"3600", b"60", b"abc", b"0"])
+                v = r.choice(EXPIRES)
             if name == b"Max-Forwards":
                 v = b"70"
             hs.append((name, v))
@@ -336,6 +343,9 @@ class Flows:
                     p.setdefault("totag", tok(r, 1, 5, b"-"))
                     v = v + b";tag=" + p["totag"]
                 hs.append((n, v))
+        # the answer's own Expires (read by the proxy when it binds the dialog, and none of its business otherwise)
+        if not any(n.lower() == b"expires" for n, _ in hs) and r.random() < 0.2:
+            hs.append((b"Expires", r.choice(EXPIRES)))
         b = from_backend or r.choice(self.backends)
         ip, port = b.split(b":")
         data = msg(b"SIP/2.0 %d %s" % (code, r.choice([b"OK", b"Ringing", b"Not Found Here", b"x"])), hs,
@@ -369,6 +379,30 @@ class Flows:
         rr = [b"<sip:up.example.net;lr>"] if r.random() < 0.4 else []
         data, hs = self.request(r.choice(METHODS), self.service_uri(r.random() < 0.5), ua, self.ft(a, b"t%d" % self.nid(), True),
                                 self.ft(b"sip:u@" + tohost, None, True), b"rc-%d" % self.nid(), routes=routes, rr=rr)
+        return s.ev_udp(self.li, ua, data)
+
+    def cross_listener(self):
+        """a next hop learned through the OTHER listener: the hop first sends a request of its own to listener 2 (the
+        proxy learns it there); later a request arriving on listener 1 is routed to it (it leaves through listener 2:
+        the new Via AND the Record-Route entry must name that listener)"""
+        r, s = self.rng, self.s
+        if self.l2 is None:
+            return None
+        h = r.choice(self.hops)
+        if h not in self.learned2 or r.random() < 0.25:
+            a, b = self.uri_pair()
+            other = r.choice([x for x in self.hops if x != h])
+            data, hs = self.request(r.choice(METHODS), b"sip:x@elsewhere.example.net", h, self.ft(a, b"x%d" % self.nid(), False),
+                                    self.ft(b"sip:u@nowhere.example.net", None, False), b"xl-%d" % self.nid(),
+                                    routes=[b"<sip:" + other[0] + b":5080;lr>"] if r.random() < 0.7 else ())
+            self.learned2.append(h)
+            return s.ev_udp(self.l2, h, data)
+        a, b = self.uri_pair()
+        ua = r.choice(self.uas)
+        rr = [b"<sip:up.example.net;lr>"] if r.random() < 0.6 else []
+        data, hs = self.request(r.choice(METHODS), b"sip:x@elsewhere.example.net", ua, self.ft(a, b"y%d" % self.nid(), True),
+                                self.ft(b"sip:u@nowhere.example.net", None, True), b"xr-%d" % self.nid(),
+                                routes=[b"<sip:" + h[0] + b":5080;lr>"], rr=rr)
         return s.ev_udp(self.li, ua, data)
 
     def static_request(self, host=None):
@@ -461,6 +495,8 @@ class Flows:
     def build(self, n_events):
         r = self.rng
         w = self.o.get("weights", {"svc": 4, "resp": 4, "route": 3, "static": 2, "rawresp": 2, "miss": 1, "indialog": 3})
+        if self.l2 is not None and "cross" not in w:
+            w = dict(w, cross=4)
         kinds = [k for k, v in w.items() for _ in range(v)]
         for _ in range(n_events):
             k = r.choice(kinds)
@@ -475,6 +511,8 @@ class Flows:
                 self.route_request()
             elif k == "static":
                 self.static_request()
+            elif k == "cross":
+                self.cross_listener()
             elif k == "rawresp":
                 self.raw_response()
             elif k == "pipeline":
